@@ -1,0 +1,48 @@
+//go:build verif
+
+// Contracts for the deductive checks under /verif (comment-only; no code).
+
+package messagequeue
+
+// ---- C35: pending / sent bookkeeping of one peer's wants ---------------------------------------
+// a want is either pending (to be sent), sent, or gone; moving it between the lists never loses it
+// and a cancel removes it from both
+//@ macro wfRecall(r) = r != nil && r.pending != nil && r.sent != nil && r.pending != r.sent && r.pending.set != nil && r.sent.set != nil && r.pending.set != r.sent.set && r.sentAt != nil
+//@ macro wanted(r, c) = has(r.pending.set, c) || has(r.sent.set, c)
+//@ func (*recallWantlist).add
+//@   prop C35
+//@   arith int
+//@   requires[wf] wfRecall(r)
+//@   modifies mapof(r.pending.set), r.pending.cached
+//@   ensures[pending_afterwards] has(r.pending.set, c)
+//@   ensures[sent_list_untouched] has(r.sent.set, c) == old(has(r.sent.set, c))
+//@ func (*recallWantlist).remove
+//@   prop C35
+//@   arith int
+//@   requires[wf] wfRecall(r)
+//@   modifies mapof(r.pending.set), r.pending.cached, mapof(r.sent.set), r.sent.cached, mapof(r.sentAt)
+//@   ensures[a_cancelled_want_is_gone_everywhere] !wanted(r, c) && !has(r.sentAt, c)
+//@ func (*recallWantlist).removeType
+//@   prop C35
+//@   arith int
+//@   requires[wf] wfRecall(r)
+//@   modifies mapof(r.pending.set), r.pending.cached, mapof(r.sent.set), r.sent.cached, mapof(r.sentAt)
+//@   ensures[have_cancel_keeps_a_block_want] wtype == pb.Message_Wantlist_Have ==> (old(has(r.pending.set, c)) && old(r.pending.set[c].WantType) == pb.Message_Wantlist_Block ==> has(r.pending.set, c)) && (old(has(r.sent.set, c)) && old(r.sent.set[c].WantType) == pb.Message_Wantlist_Block ==> has(r.sent.set, c))
+//@   ensures[block_cancel_removes_everything] wtype == pb.Message_Wantlist_Block ==> !wanted(r, c) && !has(r.sentAt, c)
+//@   ensures[no_send_time_without_a_sent_want] !has(r.sent.set, c) ==> !has(r.sentAt, c)
+//@ func (*recallWantlist).markSent
+//@   prop C35
+//@   arith int
+//@   requires[wf] wfRecall(r)
+//@   modifies mapof(r.pending.set), r.pending.cached, mapof(r.sent.set), r.sent.cached
+//@   ensures[a_want_is_never_lost] old(wanted(r, e.Cid)) ==> wanted(r, e.Cid)
+//@   ensures[marked_means_sent] result ==> has(r.sent.set, e.Cid) && !has(r.pending.set, e.Cid)
+//@   ensures[not_pending_not_marked] !old(has(r.pending.set, e.Cid)) ==> !result && has(r.sent.set, e.Cid) == old(has(r.sent.set, e.Cid))
+//@   ensures[sent_type_at_least_as_strong] result && e.WantType == pb.Message_Wantlist_Block ==> r.sent.set[e.Cid].WantType == pb.Message_Wantlist_Block
+//@ func (*recallWantlist).setSentAt
+//@   prop C35
+//@   arith int
+//@   requires[wf] wfRecall(r)
+//@   modifies mapof(r.sentAt)
+//@   ensures[only_for_sent_wants] !has(r.sent.set, c) ==> has(r.sentAt, c) == old(has(r.sentAt, c))
+//@   ensures[first_time_wins] old(has(r.sentAt, c)) ==> r.sentAt[c] == old(r.sentAt[c])
